@@ -1246,8 +1246,10 @@ _lookup(LB* self,
         return NULL;
 
     cache = _getcache(self, provided, name);
-    if (cache == NULL)
+    if (cache == NULL) {
+        Py_DECREF(required);
         return NULL;
+    }
 
     if (PyTuple_GET_SIZE(required) == 1)
         key = PyTuple_GET_ITEM(required, 0);
@@ -1517,8 +1519,10 @@ _lookupAll(LB* self, PyObject* required, PyObject* provided)
     ASSURE_DICT(self->_mcache);
 
     cache = _subcache(self->_mcache, provided);
-    if (cache == NULL)
+    if (cache == NULL) {
+        Py_DECREF(required);
         return NULL;
+    }
 
     result = PyDict_GetItem(cache, required);
     if (result == NULL) {
@@ -1589,8 +1593,10 @@ _subscriptions(LB* self, PyObject* required, PyObject* provided)
     ASSURE_DICT(self->_scache);
 
     cache = _subcache(self->_scache, provided);
-    if (cache == NULL)
+    if (cache == NULL) {
+        Py_DECREF(required);
         return NULL;
+    }
 
     result = PyDict_GetItem(cache, required);
     if (result == NULL) {
